@@ -174,6 +174,25 @@ func (r *Run) finish(meta propMeta, verifDir, evDir string, files []fileHash) in
 		}
 	}
 	sort.SliceStable(viol, func(i, j int) bool { return viol[i].Key() < viol[j].Key() })
+	if os.Getenv("CVSSCHECK_VERBOSE") != "" {
+		for _, o := range r.Obls {
+			fmt.Printf("  %v %-14s %-34s %-22s %s\n", o.OK, o.Rule, o.Instance, o.Pos, o.Detail)
+		}
+	}
+	if os.Getenv("CVSSCHECK_COUNTS") != "" {
+		cnt := map[string]int{}
+		for _, o := range r.Obls {
+			cnt[o.Rule]++
+		}
+		var ks []string
+		for k := range cnt {
+			ks = append(ks, k)
+		}
+		sort.Strings(ks)
+		for _, k := range ks {
+			fmt.Printf("  %-16s %d\n", k, cnt[k])
+		}
+	}
 
 	os.MkdirAll(evDir, 0o755)
 	vdir := filepath.Join(evDir, "violations")
